@@ -13,7 +13,7 @@ LEVEL = 'exploration'
 RULE = ('Rotation matrices built with an own Rodrigues formula from (axis, angle): axes canonical / two-component / '
         'oblique / random; angle classes generic, [1e-12,1e-6), [1e-6,1e-2), (pi-1e-2,pi-1e-6], (pi-1e-6,pi), exact pi '
         '(2uu^T-I, axis-aligned and oblique), exact identity, negative angles. Every case goes through all seven '
-        'method/version choices (shepperd, hughes, chiaverini, itzhack v1-3, sarabandi with threshold in [-1,1] incl. 0) and '
+        'method/version choices (shepperd, hughes, chiaverini, itzhack v1-3 and default, sarabandi with threshold in [-1,1] incl. 0, and no method= at all) and '
         'every entry point (DCM.to_quaternion, DCM.to_q, Quaternion(dcm=), QuaternionArray(DCM=) row k of N, the bare '
         'orientation function, its Nx3x3 form; in half of the batches the other rows are the same rotation moved on by 1e-12..1e-3 rad, a slowly varying sequence). Oracle: real dtype, shape (4,), finite, unit to 1e-12, own q->R of the '
         'result equals R (1e-10 for shepperd/itzhack everywhere; 2e-7 for the three closed forms on angle <= pi-1e-6; beyond '
@@ -25,8 +25,9 @@ REQUIRED_LABELS = ['dcm2q:batch=slowly_varying', 'dcm2q:cls=exact_pi', 'dcm2q:cl
                    'dcm2q:pivot=1', 'dcm2q:pivot=2', 'dcm2q:pivot=3']
 
 METHODS = [('shepperd', {}), ('hughes', {}), ('chiaverini', {}), ('itzhack', {'version': 1}),
-           ('itzhack', {'version': 2}), ('itzhack', {'version': 3}), ('itzhack', {}), ('sarabandi', {})]
-EXACT = {'shepperd', 'itzhack'}
+           ('itzhack', {'version': 2}), ('itzhack', {'version': 3}), ('itzhack', {}), ('sarabandi', {}),
+           ('default', {})]        # no method= at all: "the default method inverts q -> R for every rotation, including exact half-turns"
+EXACT = {'shepperd', 'itzhack', 'default'}
 
 
 def build_R(cls, axis, angle):
@@ -67,6 +68,15 @@ def entries(R, case, method, kw):
         return np.array(mats, dtype=float)
 
     kws = dict(kw)
+    if method == 'default':
+        return [
+            ('DCM.to_quaternion', lambda: DCM(np.array(R)).to_quaternion()),
+            ('DCM.to_q', lambda: DCM(np.array(R)).to_q()),
+            ('Quaternion(dcm=)', lambda: Quaternion(dcm=np.array(R))),
+            ('Quaternion.from_DCM', lambda: Quaternion().from_DCM(np.array(R))),
+            ('QuaternionArray(DCM=)', lambda: QuaternionArray(DCM=batch())[idx]),
+            ('QuaternionArray.from_DCM', lambda: np.asarray(QuaternionArray().from_DCM(batch(), inplace=False))[idx]),
+        ]
     if method == 'sarabandi':
         kws = {'threshold': case['eta']}
     out = [
